@@ -35,7 +35,7 @@ N == INSTANCE FxpN
 A == INSTANCE FxpAlgo WITH MW <- 16            \* the implementation-shaped shift algorithms (growth of << and >> in expand mode)
 
 AllFmts == << [s |-> TRUE, w |-> 3, f |-> 1], [s |-> FALSE, w |-> 3, f |-> 0], [s |-> TRUE, w |-> 4, f |-> 2], [s |-> FALSE, w |-> 2, f |-> 2],
-             [s |-> FALSE, w |-> 3, f |-> 1] >>
+             [s |-> FALSE, w |-> 3, f |-> 1], [s |-> TRUE, w |-> 4, f |-> 1] >>          \* (6: s3/1 with one more word bit - a resize that keeps every code)
 Fmts == { AllFmts[i] : i \in FmtSel }
 AllRnd == <<"trunc", "around", "floor", "ceil">>
 Rnds == { AllRnd[i] : i \in RndSel }
